@@ -196,10 +196,13 @@ def struct_eq(a, b):
         return a.args == b.args and a.fn is b.fn
     if a.op == 'mu':
         return False
+    if a.op in ('binop',) and a.args[0] in COMMUTATIVE and a.args[0] == b.args[0]:
+        return (struct_eq(a.args[1], b.args[1]) and struct_eq(a.args[2], b.args[2])) or (struct_eq(a.args[1], b.args[2]) and struct_eq(a.args[2], b.args[1]))
     return all(struct_eq(x, y) for x, y in zip(a.args, b.args))
 
 
 NOVAL = object()
+COMMUTATIVE = ('Add', 'Mult', 'BitAnd', 'BitOr', 'BitXor')
 
 
 def const_val(t):
@@ -232,12 +235,54 @@ def call_parts(t):
     return None, tuple(pos), kw
 
 
+# positional layout of library signatures (canonical names, see CANON): lets a rule ask for an argument by position or by
+# keyword, whichever way the call site spells it.  The method form has the receiver in slot 0 and therefore the same layout,
+# except for the variadic x.reshape(*shape) / x.transpose(*axes).
+SIGS = {
+    'numpy.sum': ('a', 'axis', 'dtype', 'out', 'keepdims', 'initial', 'where'), 'numpy.nansum': ('a', 'axis', 'dtype', 'out', 'keepdims'),
+    'numpy.mean': ('a', 'axis', 'dtype', 'out', 'keepdims'), 'numpy.amax': ('a', 'axis', 'out', 'keepdims'), 'numpy.amin': ('a', 'axis', 'out', 'keepdims'),
+    'numpy.nanmax': ('a', 'axis', 'out', 'keepdims'), 'numpy.prod': ('a', 'axis', 'dtype', 'out', 'keepdims'), 'numpy.linalg.norm': ('x', 'ord', 'axis', 'keepdims'),
+    'numpy.clip': ('a', 'a_min', 'a_max', 'out'), 'numpy.maximum': ('x1', 'x2'), 'numpy.minimum': ('x1', 'x2'), 'numpy.squeeze': ('a', 'axis'),
+    'numpy.swapaxes': ('a', 'axis1', 'axis2'), 'numpy.transpose': ('a', 'axes'), 'numpy.moveaxis': ('a', 'source', 'destination'),
+    'numpy.reshape': ('a', 'newshape'), 'numpy.broadcast_to': ('array', 'shape'), 'numpy.argmax': ('a', 'axis', 'out', 'keepdims'),
+    'numpy.argmin': ('a', 'axis', 'out', 'keepdims'), 'numpy.cumsum': ('a', 'axis', 'dtype', 'out'), 'numpy.cumprod': ('a', 'axis', 'dtype', 'out'),
+    'numpy.repeat': ('a', 'repeats', 'axis'), 'numpy.append': ('arr', 'values', 'axis'), 'numpy.take_along_axis': ('arr', 'indices', 'axis'),
+    'numpy.expand_dims': ('a', 'axis'), 'numpy.concatenate': ('arrays', 'axis'), 'numpy.stack': ('arrays', 'axis'), 'numpy.where': ('condition', 'x', 'y'),
+    'numpy.all': ('a', 'axis', 'out', 'keepdims'), 'numpy.any': ('a', 'axis', 'out', 'keepdims'), 'numpy.full': ('shape', 'fill_value', 'dtype'),
+    'numpy.ones': ('shape', 'dtype'), 'numpy.zeros': ('shape', 'dtype'), 'numpy.empty': ('shape', 'dtype'), 'numpy.asarray': ('a', 'dtype'),
+    'numpy.array': ('object', 'dtype'), 'numpy.linalg.solve': ('a', 'b'), 'numpy.delete': ('arr', 'obj', 'axis'), 'numpy.trace': ('a', 'offset', 'axis1', 'axis2'),
+    'numpy.diff': ('a', 'n', 'axis'), 'numpy.random.uniform': ('low', 'high', 'size'), 'scipy.special.logsumexp': ('a', 'axis', 'b', 'keepdims', 'return_sign'),
+    'numpy.percentile': ('a', 'q', 'axis'), 'numpy.sort': ('a', 'axis'), 'numpy.argsort': ('a', 'axis'), 'numpy.copy': ('a', 'order'),
+    'numpy.std': ('a', 'axis', 'dtype', 'out', 'ddof', 'keepdims'), 'numpy.var': ('a', 'axis', 'dtype', 'out', 'ddof', 'keepdims'),
+    'numpy.abs': ('x',), 'numpy.exp': ('x',), 'numpy.log': ('x',), 'numpy.sqrt': ('x',), 'numpy.conj': ('x',), 'numpy.angle': ('z', 'deg'), 'numpy.cos': ('x',),
+    'numpy.ones_like': ('a', 'dtype'), 'numpy.zeros_like': ('a', 'dtype'), 'numpy.ravel': ('a', 'order'), 'numpy.flip': ('m', 'axis'),
+    'numpy.median': ('a', 'axis'), 'numpy.rollaxis': ('a', 'axis', 'start'), 'numpy.split': ('ary', 'indices_or_sections', 'axis'),
+}
+_VARIADIC_METHODS = ('method:reshape', 'method:transpose')
+_ALIASES = {'newshape': 'shape', 'shape': 'newshape'}
+
+
 def call_arg(t, pos=None, name=None):
-    _, p, kw = call_parts(t)
+    n, p, kw = call_parts(t)
     if name is not None and name in kw:
         return kw[name]
     if pos is not None and pos < len(p):
         return p[pos]
+    sig = SIGS.get(canon(n)) if n is not None and n not in _VARIADIC_METHODS else None
+    if sig is None and isinstance(t, T) and t.op == 'call' and t.args[0].op == 'ref' and isinstance(t.args[0].args[0], Func):
+        f = t.args[0].args[0]
+        sig = tuple(f.posonly + f.args + f.kwonly)      # repo function: its own parameter list
+    if sig is not None:
+        if name is not None:
+            for nm in (name, _ALIASES.get(name)):
+                if nm in sig and sig.index(nm) < len(p):
+                    return p[sig.index(nm)]
+                if nm is not None and nm in kw:
+                    return kw[nm]
+        if pos is not None and pos < len(sig):
+            for nm in (sig[pos], _ALIASES.get(sig[pos])):
+                if nm in kw:
+                    return kw[nm]
     return None
 
 
@@ -426,7 +471,187 @@ def struct_eq_modulo(a, b, pairs, depth=0):
             return a.args == b.args and a.fn is b.fn
         if a.op in ('mu', 'elem'):
             return False
+        if a.op == 'binop' and a.args[0] in COMMUTATIVE and a.args[0] == b.args[0]:
+            return (struct_eq_modulo(a.args[1], b.args[1], pairs, depth + 1) and struct_eq_modulo(a.args[2], b.args[2], pairs, depth + 1)) or \
+                (struct_eq_modulo(a.args[1], b.args[2], pairs, depth + 1) and struct_eq_modulo(a.args[2], b.args[1], pairs, depth + 1))
         return all(struct_eq_modulo(x, y, pairs, depth + 1) for x, y in zip(a.args, b.args))
     if isinstance(a, tuple) and isinstance(b, tuple) and len(a) == len(b):
         return all(struct_eq_modulo(x, y, pairs, depth + 1) for x, y in zip(a, b))
     return a == b
+
+
+def cond_polarity(cond, pol=True):
+    """strip negations from a condition term: (positive condition, polarity)"""
+    while isinstance(cond, T) and cond.op == 'unop' and cond.args[0] == 'Not':
+        cond, pol = cond.args[1], not pol
+    return cond, pol
+
+
+def none_test(cond, pol=True):
+    """(tested term, True if the guard means `x is None` / False if `x is not None`) or (None, None).
+    Comparison operators are canonical (`is not` is Not(Is)), see terms.NEGATED_CMP"""
+    cond, pol = cond_polarity(cond, pol)
+    if isinstance(cond, T) and cond.op == 'cmp' and cond.args[0] in ('Is', 'IsNot', 'Eq', 'NotEq'):
+        a, b = cond.args[1], cond.args[2]
+        if const_val(b) is None:
+            x = a
+        elif const_val(a) is None:
+            x = b
+        else:
+            return None, None
+        if cond.args[0] in ('IsNot', 'NotEq'):
+            pol = not pol
+        return strip_views(x), pol
+    return None, None
+
+
+def guard_means_given(c, pname):
+    """c = (condition term, polarity) as recorded by mult_factors / event guards: does it say `pname is not None`?"""
+    if not (isinstance(c, tuple) and len(c) == 2):
+        return False
+    x, is_none = none_test(c[0], c[1])
+    return x is not None and x.op == 'param' and x.args[0] == pname and is_none is False
+
+
+def newaxis_insertions(t):
+    """t == x[idx] where idx only consists of `...`, full slices and None (np.expand_dims is built as this form too):
+    -> (x, [positions of the inserted axes in the result: negative = counted from the right, non-negative = from the left]); else None"""
+    t = strip_views(t)
+    if not (isinstance(t, T) and t.op == 'sub'):
+        return None
+    idx = t.args[1]
+    items = list(idx.args[0]) if idx.op == 'tuple' else [idx]
+    kinds = []
+    for x in items:
+        if x.op == 'slice' and all(const_val(a) is None for a in x.args):
+            kinds.append(':')
+        elif const_val(x) is None:
+            kinds.append('N')
+        elif const_val(x) is Ellipsis:
+            kinds.append('E')
+        else:
+            return None
+    if kinds.count('E') > 1 or 'N' not in kinds:
+        return None
+    pos = []
+    if 'E' in kinds:
+        e = kinds.index('E')
+        for i, k in enumerate(kinds):
+            if k == 'N':
+                pos.append(i if i < e else i - len(kinds))
+    else:
+        pos = [i for i, k in enumerate(kinds) if k == 'N']
+    return t.args[0], pos
+
+
+def loop_role(t, L=None):
+    """role of a term relative to a for-loop (L, or whichever loop its element belongs to):
+         ('index', L)        the running index: `i` of `for i in range(n)` / `for i, x in enumerate(X)`
+         ('slice', L, X)     the current element of the sequence X: `X[i]`, `x` of `for x in X`, of `enumerate(X)`, of `zip(.., X, ..)`
+       else None.  `for i in range(n): f(X[i])` and `for i, x in enumerate(X): f(x)` give the same roles."""
+    t = strip_views(t)
+    if not isinstance(t, T):
+        return None
+    if t.op == 'sub':
+        r = loop_role(t.args[1], L)
+        if r is not None and r[0] == 'index':
+            return ('slice', r[1], strip_views(t.args[0]))
+        if t.args[1].op == 'tuple' and t.args[1].args[0]:
+            # X[i, :, :] / X[i, ...] is X[i]
+            items = t.args[1].args[0]
+            r = loop_role(items[0], L)
+            rest_full = all((x.op == 'slice' and all(const_val(a) is None for a in x.args)) or const_val(x) is Ellipsis for x in items[1:])
+            if r is not None and r[0] == 'index' and rest_full:
+                return ('slice', r[1], strip_views(t.args[0]))
+        return None
+    path = []
+    while t.op == 'unpack' and t.args[3] is None:
+        path.insert(0, t.args[1])
+        t = strip_views(t.args[0])
+    if t.op != 'elem' or (L is not None and t.extra is not L) or t.extra is None:
+        return None         # (the variable of a comprehension has no loop object: it stays an ordinary term)
+    loop = t.extra
+    it = strip_views(t.args[0]) if t.args and isinstance(t.args[0], T) else None
+    while it is not None:
+        if is_call_to(it, 'builtin.range') and not path:
+            return ('index', loop)
+        if is_call_to(it, 'builtin.enumerate') and path and not call_parts(it)[2] and len(call_parts(it)[1]) == 1:
+            if path[0] == 0 and len(path) == 1:
+                return ('index', loop)
+            if path[0] == 1:
+                path = path[1:]
+                it = strip_views(call_arg(it, 0))
+                continue
+            return None
+        if is_call_to(it, 'builtin.zip') and path and path[0] < len(call_parts(it)[1]):
+            it, path = strip_views(call_parts(it)[1][path[0]]), path[1:]
+            continue
+        if not path and not is_call_to(it, 'builtin.range', 'builtin.enumerate', 'builtin.zip'):
+            return ('slice', loop, it)
+        return None
+    return None
+
+
+def shape_dim(t):
+    """t denotes one axis length of an array: `*_, K, N = x.shape` / x.shape[i] / len(x) -> (x term, position: negative = from the
+    right, non-negative = from the left); else None"""
+    t = strip_views(t)
+    if not isinstance(t, T):
+        return None
+    if t.op == 'unpack' and isinstance(t.args[0], T):
+        v = strip_views(t.args[0])
+        i, n, star = t.args[1], t.args[2], t.args[3]
+        if v.op == 'attr' and v.args[1] == 'shape':
+            if star is None:
+                return strip_views(v.args[0]), i - n
+            if i > star:
+                return strip_views(v.args[0]), i - n
+            if i < star:
+                return strip_views(v.args[0]), i
+            return None
+        if v.op == 'sub' and strip_views(v.args[0]).op == 'attr' and strip_views(v.args[0]).args[1] == 'shape' and star is None:
+            sl = v.args[1]
+            if sl.op == 'slice':
+                lo, hi, st = (const_val(x) for x in sl.args)
+                if isinstance(lo, int) and lo < 0 and hi is None and st is None and -lo == n:
+                    return strip_views(strip_views(v.args[0]).args[0]), i - n
+                if lo in (None, 0) and isinstance(hi, int) and hi == n and st is None:
+                    return strip_views(strip_views(v.args[0]).args[0]), i
+        return None
+    if t.op == 'sub' and strip_views(t.args[0]).op == 'attr' and strip_views(t.args[0]).args[1] == 'shape':
+        k = const_val(t.args[1])
+        if isinstance(k, int) and not isinstance(k, bool):
+            return strip_views(strip_views(t.args[0]).args[0]), k
+    if is_call_to(t, 'builtin.len') and len(call_parts(t)[1]) == 1:
+        return strip_views(call_parts(t)[1][0]), 0
+    return None
+
+
+def index_chain(t):
+    """flatten nested / tuple indexing and loop elements into (base term, [index items]):
+       X[p, k], X[p][k] and `row[k]` with `for p, row in enumerate(X)` all give (X, [('index', Lp), k]).
+       Items that are the running index of a loop are given as ('index', loop); all others as stripped terms."""
+    t = strip_views(t)
+    items = []
+    for _ in range(12):
+        if isinstance(t, T) and t.op == 'sub':
+            idx = t.args[1]
+            its = list(idx.args[0]) if idx.op == 'tuple' else [idx]
+            conv = []
+            for x in its:
+                r = loop_role(x)
+                conv.append(('index', r[1]) if r is not None and r[0] == 'index' else strip_views(x))
+            items = conv + items
+            t = strip_views(t.args[0])
+            continue
+        r = loop_role(t)
+        if r is not None and r[0] == 'slice':
+            items = [('index', r[1])] + items
+            t = r[2]
+            continue
+        break
+    return t, items
+
+
+def is_full_slice(x):
+    return isinstance(x, T) and x.op == 'slice' and all(const_val(a) is None for a in x.args)
